@@ -6,8 +6,10 @@ import (
 	"encoding/json"
 	"fmt"
 	"github.com/DATA-DOG/go-sqlmock"
+	"os"
 	"reflect"
 	"regexp"
+	"sort"
 	"strings"
 	"sync"
 
@@ -488,6 +490,37 @@ func evalPlanner(c PCase) (problems []string, n int) {
 			}
 		}
 	}
+	// the reverse of a reversible plan does what the same planner writes, under the same options, for
+	// the inverse change: both are broken into (table, clause) units and compared as multisets.
+	if c.Kind == "edits" && plan.Reversible && os.Getenv("VERIF_C17_INVERSE") != "off" {
+		if inv, err := d.Diff.SchemaDiff(to, from, schema.DiffNormalized()); err == nil && len(inv) > 0 {
+			if ip, err := pl.PlanChanges(context.Background(), "p", inv, func(o *migrate.PlanOptions) {
+				o.Indent = c.Indent
+				o.SchemaQualifier = new(string)
+			}); err == nil {
+				var rev, fwd []string
+				for _, ch := range plan.Changes {
+					rs, _ := ch.ReverseStmts()
+					for _, r := range rs {
+						rev = append(rev, clauseUnits(r)...)
+					}
+				}
+				for _, ch := range ip.Changes {
+					fwd = append(fwd, clauseUnits(ch.Cmd)...)
+				}
+				// MySQL drops and re-creates the index it keeps for a foreign key whenever the key is
+				// re-created: both plans do so, each in its own direction; those units are not compared.
+				rev, fwd = dropFKIndexUnits(rev), dropFKIndexUnits(fwd)
+				sort.Strings(rev)
+				sort.Strings(fwd)
+				// everything the inverse plan does has to be in the reverse (the reverse may do more, e.g.
+				// set an unchanged comment again).
+				if missing := minus(fwd, rev); len(missing) > 0 {
+					bad("the reverse statements do not do what the planner writes for the inverse change: missing from the reverse %q", missing)
+				}
+			}
+		}
+	}
 	// a reverse undoes the whole statement: an ALTER TABLE of k clauses is reversed by k clauses.
 	for _, ch := range plan.Changes {
 		k := alterClauses(ch.Cmd)
@@ -526,6 +559,88 @@ var reBareAlter = regexp.MustCompile("(?is)^\\s*ALTER\\s+TABLE\\s+(`[^`]+`|\"[^\
 var reAlter = regexp.MustCompile("(?is)^\\s*ALTER\\s+TABLE\\s+(`[^`]+`|\"[^\"]+\"|\\S+)(\\.(`[^`]+`|\"[^\"]+\"))?\\s+(.*)$")
 
 // alterClauses counts the top-level comma-separated clauses of an ALTER TABLE statement (0: not one).
+var reFKIndexUnit = regexp.MustCompile("\\| (ADD|DROP) INDEX `fk_\\w+`")
+
+func dropFKIndexUnits(us []string) []string {
+	var out []string
+	for _, u := range us {
+		if !reFKIndexUnit.MatchString(u) {
+			out = append(out, u)
+		}
+	}
+	return out
+}
+
+// minus returns the elements of a (a multiset) that b does not hold.
+func minus(a, b []string) []string {
+	n := map[string]int{}
+	for _, x := range b {
+		n[x]++
+	}
+	var out []string
+	for _, x := range a {
+		if n[x] > 0 {
+			n[x]--
+			continue
+		}
+		out = append(out, x)
+	}
+	return out
+}
+
+// classifyPlanner names the known finding a failing planner-level case belongs to ("" = none).
+func classifyPlanner(c PCase, problems []string) string {
+	// MySQL drops an index implicitly with the column it covers and the planner leaves the DROP INDEX
+	// out; the reverse then re-adds the column but not the index.
+	if c.Dialect == "postgres" || len(problems) == 0 {
+		return ""
+	}
+	for _, p := range problems {
+		if p != "the reverse statements do not do what the planner writes for the inverse change: missing from the reverse [\"ALTER TABLE `t` | ADD INDEX `c` (`c`)\"]" {
+			return ""
+		}
+	}
+	for _, e := range c.Edits {
+		if e == "drop_indexed_column_and_add_index" {
+			return "mysql-index-dropped-implicitly-with-its-column-is-not-restored-by-the-reverse"
+		}
+	}
+	return ""
+}
+
+// clauseUnits breaks a statement into comparable units: "ALTER TABLE x | clause" per top-level clause
+// of an ALTER TABLE, the whole statement otherwise (white space normalised).
+func clauseUnits(stmt string) []string {
+	norm := func(s string) string { return strings.Join(strings.Fields(s), " ") }
+	m := reAlter.FindStringSubmatch(stmt)
+	if m == nil {
+		return []string{norm(stmt)}
+	}
+	head := norm(strings.TrimSuffix(strings.TrimSpace(stmt), m[4]))
+	body, depth, start := m[4], 0, 0
+	var quote byte
+	var out []string
+	for i := 0; i < len(body); i++ {
+		ch := body[i]
+		switch {
+		case quote != 0:
+			if ch == quote {
+				quote = 0
+			}
+		case ch == '\'' || ch == '"' || ch == '`':
+			quote = ch
+		case ch == '(':
+			depth++
+		case ch == ')':
+			depth--
+		case ch == ',' && depth == 0:
+			out = append(out, head+" | "+norm(body[start:i]))
+			start = i + 1
+		}
+	}
+	return append(out, head+" | "+norm(body[start:]))
+}
+
 func alterClauses(stmt string) int {
 	m := reAlter.FindStringSubmatch(stmt)
 	if m == nil {
@@ -600,11 +715,11 @@ func Run(r *report.Run) {
 			pn++
 		}
 		if len(problems) > 0 {
-			r.Violate("", fmt.Sprintf("%s %s %v indent=%q: %s", c.Dialect, c.Kind, c.Edits, c.Indent, strings.Join(problems, " | ")), map[string]any{"planner": c})
+			r.Violate(classifyPlanner(c, problems), fmt.Sprintf("%s %s %v indent=%q: %s", c.Dialect, c.Kind, c.Edits, c.Indent, strings.Join(problems, " | ")), map[string]any{"planner": c})
 		}
 	}
 	r.Set("mysql_postgres_plans_checked_for_flag_and_down_files", pn)
-	r.Rule = "(planner level) MySQL, PostgreSQL and TiDB (MySQL driver on a mocked TiDB connection) plans of the differ universe (create-all, drop-all, every single edit, a fifth of the compatible pairs; thorough: all pairs) x 2 indents: parts (a) and (b) below, and an ALTER TABLE of k clauses must be reversed by at least k clauses; (engine level) pairs (A,B) of the SQLite universe as in C01 x indent {none, two spaces} x desired state {evaluated from HCL, inspected from a live database built with B's DDL}: plan from the real differ/planner; (a) Reversible <=> every change has a reverse statement, a plan that rebuilds a table is never reversible; (b) for the 5 third-party formatters the down part (our own extraction + the dialect scanner) equals the reverse statements in reverse change order; (c) for reversible plans: up then down on the real engine restores the catalogue read by our own pragma dump, and atlas reports no difference from the starting schema in both directions; non-trivial = pair with a non-empty plan; distinct = (A,B,indent,source)"
+	r.Rule = "(planner level) MySQL, PostgreSQL and TiDB (MySQL driver on a mocked TiDB connection) plans of the differ universe (create-all, drop-all, every single edit, a fifth of the compatible pairs; thorough: all pairs) x 2 indents: parts (a) and (b) below, an ALTER TABLE of k clauses must be reversed by at least k clauses, and the reverse of a reversible plan must hold every (table, clause) unit the same planner writes, under the same options, for the inverse change; (engine level) pairs (A,B) of the SQLite universe as in C01 x indent {none, two spaces} x desired state {evaluated from HCL, inspected from a live database built with B's DDL}: plan from the real differ/planner; (a) Reversible <=> every change has a reverse statement, a plan that rebuilds a table is never reversible; (b) for the 5 third-party formatters the down part (our own extraction + the dialect scanner) equals the reverse statements in reverse change order; (c) for reversible plans: up then down on the real engine restores the catalogue read by our own pragma dump, and atlas reports no difference from the starting schema in both directions; non-trivial = pair with a non-empty plan; distinct = (A,B,indent,source)"
 	r.Assumptions = []string{"MySQL/PostgreSQL plans are covered for (a) and (b) by the planner-level checks; (c) needs an engine and is SQLite only"}
 	cs := pairs(r.Tier)
 	var mu sync.Mutex
